@@ -59,9 +59,11 @@ prim_suite!(c03_rt_char, c05_enc_char, c20_size_char, char, |s| {
 prim_suite!(c03_rt_timestamp, c05_enc_timestamp, c20_size_timestamp, Timestamp, |s| Timestamp::from_milliseconds(s.u64() as i64), |a, b| a.milliseconds() == b.milliseconds(), |b, x| valid_fixed(b, TIMESTAMP, &x.milliseconds().to_be_bytes()));
 prim_suite!(c03_rt_uuid, c05_enc_uuid, c20_size_uuid, Uuid, |s| Uuid::from(s.bytes::<16>()), |a, b| a.as_inner() == b.as_inner(), |b, x| valid_fixed(b, UUID, x.as_inner()));
 prim_suite!(c03_rt_dec32, c05_enc_dec32, c20_size_dec32, Dec32, |s| Dec32::from(s.bytes::<4>()), |a, b| a.as_inner() == b.as_inner(), |b, x| valid_fixed(b, DEC32, x.as_inner()));
+// @tier-of c03_rt_dec64 thorough
 prim_suite!(c03_rt_dec64, c05_enc_dec64, c20_size_dec64, Dec64, |s| Dec64::from(s.bytes::<8>()), |a, b| a.as_inner() == b.as_inner(), |b, x| valid_fixed(b, DEC64, x.as_inner()));
 prim_suite!(c03_rt_dec128, c05_enc_dec128, c20_size_dec128, Dec128, |s| Dec128::from(s.bytes::<16>()), |a, b| a.as_inner() == b.as_inner(), |b, x| valid_fixed(b, DEC128, x.as_inner()));
 prim_suite!(c03_rt_unit, c05_enc_unit, c20_size_unit, (), |_s| (), |a, b| a == b, |b, x| b.len() == 1 && b[0] == NULL);
+// @unwind 3
 prim_suite!(c03_rt_opt_u16, c05_enc_opt_u16, c20_size_opt_u16, Option<u16>, |s| if s.bool() { Some(s.u16()) } else { None }, |a, b| a == b, |b, x| match x {
     None => b.len() == 1 && b[0] == NULL,
     Some(v) => valid_fixed(b, USHORT, &v.to_be_bytes()),
@@ -182,9 +184,7 @@ macro_rules! reader_agree {
                     std::mem::forget(next);
                     vcover!($s, true, "both readers Ok");
                 }
-                (Err(_), Err(_)) => {
-                    vcover!($s, true, "both readers Err");
-                }
+                (Err(_), Err(_)) => {}
                 _ => assert!(false, "[C20] one reader accepts what the other rejects"),
             }
             std::mem::forget(r1);
@@ -203,3 +203,77 @@ reader_agree!(c20_rd_char, char, 7, |s, buf| {}, |a, b| a == b);
 reader_agree!(c20_rd_timestamp, Timestamp, 11, |s, buf| { buf[0] = TIMESTAMP; }, |a, b| a.milliseconds() == b.milliseconds());
 reader_agree!(c20_rd_dec32, Dec32, 7, |s, buf| { buf[0] = DEC32; }, |a, b| a.as_inner() == b.as_inner());
 reader_agree!(c20_rd_uuid, Uuid, 19, |s, buf| { buf[0] = UUID; }, |a, b| a.as_inner() == b.as_inner());
+
+// ---- C20 (ii), chunked stream: the io reader fed by a reader that returns short reads ----
+
+/// `io::Read` that hands out at most `chunk` bytes per call (what a socket does).
+pub struct Chunked<'a> {
+    pub data: &'a [u8],
+    pub pos: usize,
+    pub chunk: usize,
+}
+impl<'a> std::io::Read for Chunked<'a> {
+    fn read(&mut self, buf: &mut [u8]) -> std::io::Result<usize> {
+        let rem = self.data.len() - self.pos;
+        let mut n = buf.len();
+        if n > self.chunk {
+            n = self.chunk;
+        }
+        if n > rem {
+            n = rem;
+        }
+        buf[..n].copy_from_slice(&self.data[self.pos..self.pos + n]);
+        self.pos += n;
+        Ok(n)
+    }
+}
+
+macro_rules! reader_chunked {
+    ($name:ident, $t:ty, $n:expr, $code:expr, |$a:ident, $b:ident| $eq:expr) => {
+        harness!($name, |s| {
+            use serde::Deserialize;
+            let mut buf: [u8; $n] = s.bytes::<$n>();
+            buf[0] = $code;
+            let chunk = s.usize();
+            s.assume(chunk >= 1 && chunk <= $n);
+            let r1: Result<$t, _> = from_slice(&buf);
+            let mut rd = Chunked { data: &buf, pos: 0, chunk };
+            let r2 = {
+                let mut de2 = serde_amqp::de::Deserializer::new(serde_amqp::read::IoReader::new(&mut rd));
+                <$t>::deserialize(&mut de2)
+            };
+            match (&r1, &r2) {
+                (Ok($a), Ok($b)) => {
+                    assert!($eq, "[C20] chunked stream decodes a different value than the slice");
+                    let want = spec_fixed_len(buf[0]).unwrap();
+                    assert!(rd.pos == want, "[C20] chunked stream: bytes consumed differ from the encoding's length (trailing bytes disturbed)");
+                    vcover!(s, chunk == 1, "one byte per read");
+                    vcover!(s, chunk == 3, "three bytes per read");
+                }
+                (Err(_), Err(_)) => {}
+                _ => assert!(false, "[C20] chunked stream accepts/rejects differently from the slice"),
+            }
+            std::mem::forget(r1);
+            std::mem::forget(r2);
+        });
+    };
+}
+
+// @unwind 22
+// @bound constructor pinned, payload and trailing bytes symbolic; every chunk size 1..=N of the underlying reader
+// @desc decoding from a stream that delivers short reads gives the same value and consumes the same bytes as decoding from the slice
+reader_chunked!(c20_chunked_u32, u32, 7, UINT, |a, b| a == b);
+// @tier thorough
+// @timeout 2400
+// @unwind 22
+reader_chunked!(c20_chunked_u64, u64, 11, ULONG, |a, b| a == b);
+reader_chunked!(c20_chunked_dec32, Dec32, 7, DEC32, |a, b| a.as_inner() == b.as_inner());
+// @tier thorough
+// @timeout 2400
+// @unwind 22
+reader_chunked!(c20_chunked_dec64, Dec64, 11, DEC64, |a, b| a.as_inner() == b.as_inner());
+// @tier thorough
+// @timeout 2400
+// @unwind 22
+reader_chunked!(c20_chunked_uuid, Uuid, 19, UUID, |a, b| a.as_inner() == b.as_inner());
+reader_chunked!(c20_chunked_timestamp, Timestamp, 11, TIMESTAMP, |a, b| a.milliseconds() == b.milliseconds());
